@@ -283,16 +283,3 @@ package dna
 //@   props C08
 //@   trusted common frame of the seven Distance implementations, each proved to modify nothing
 //@   modifies nothing
-
-// every pair handed to the workers indexes the N x N output matrix (N is a ghost constant; the producer proves it for what it sends)
-//@ func DistMatrix$2
-//@   props C08
-//@   float xreal
-//@   chaninv seqpairdist : 0 <= elem_i && elem_i < ghost(N) && 0 <= elem_j && elem_j < ghost(N)
-//@   requires wg != nil && mux != nil && len(outmatrix) == ghost(N) && (forall r :: 0 <= r && r < ghost(N) ==> len(outmatrix[r]) == ghost(N)) && model != nil && gf(locked, mux) == 0
-//@   ensures gf(wgdone, wg) == old(gf(wgdone, wg)) + 1
-//@   ensures gf(locked, mux) == 0
-//@   modifies mem(float64), captured(DistMatrix$2.err), captured(DistMatrix$2.max), captured(DistMatrix$2.uncompute), mem(seqpairdist), gf(wgdone), gf(locked)
-//@   loop 1
-//@     invariant gf(wgdone, wg) == old(gf(wgdone, wg)) && gf(locked, mux) == 0
-//@     invariant len(outmatrix) == ghost(N) && (forall r :: 0 <= r && r < ghost(N) ==> len(outmatrix[r]) == ghost(N))
